@@ -226,7 +226,9 @@ impl Manifest {
     pub fn to_writer<W: Write>(&self, mut wtr: W) -> Result<()> {
         wtr.write_all(b"# SOURMASH-MANIFEST-VERSION: 1.0\n")?;
 
-        let mut wtr = csv::Writer::from_writer(wtr);
+        let mut wtr = csv::WriterBuilder::new()
+            .comment(Some(b'#'))
+            .from_writer(wtr);
 
         for record in &self.records {
             wtr.serialize(record)?;
